@@ -338,4 +338,11 @@ def rule_borrowed_r4(ctx):
     ctx.borrow(rule_drop, {"C03.DROP": "C11.DROP"})
 
 
-RULES = [rule_token, rule_who, rule_421, rule_queue_kind, rule_borrowed_r4]
+def rule_borrowed_r6(ctx):
+    from .c12 import rule_fields
+    ctx.rule("C11.CLEANUP", "the port goes back in the dispatcher's clean-up whatever happens there: the give-back is not preceded by a suspension point of the `finally` that a "
+                            "second cancellation (Server.close()) can interrupt (shared with C12.FIELDS)")
+    ctx.borrow(rule_fields, {"C12.FIELDS": "C11.CLEANUP"})
+
+
+RULES = [rule_token, rule_who, rule_421, rule_queue_kind, rule_borrowed_r4, rule_borrowed_r6]
